@@ -827,6 +827,20 @@ def rule_signrole(prog: Program) -> List[Instance]:
             out.append(Instance("R-SIGNROLE", f"{f.qual}#edge:{short(n.targets[0])}", OK if ok and ok_axis else BAD,
                                 f"`{short(n)}`: positive resolution starts at the lower edge of its own axis' interval" if ok and ok_axis
                                 else (f"`{short(n)}`: positive resolution must pick the lower edge `{lo}`, negative the upper edge `{hi}`" if not ok else f"`{short(n)}` mixes axes {sorted(axes)}"), f.where(n)))
+    # an interval whose edge is picked without looking at the sign of the resolution
+    used_cond = set()
+    for n in walk_own(f.node):
+        if isinstance(n, ast.Assign) and isinstance(n.value, ast.IfExp):
+            used_cond |= names_in(n.value.body) | names_in(n.value.orelse)
+    seen_pairs = {v[:2] for v in pairs.values()}
+    for lo, hi in sorted(seen_pairs):
+        if lo in used_cond or hi in used_cond:
+            continue
+        uncond = [n for n in walk_own(f.node) if isinstance(n, ast.Name) and isinstance(n.ctx, ast.Load) and n.id in (lo, hi)]
+        if uncond:
+            n_i += 1
+            out.append(Instance("R-SIGNROLE", f"{f.qual}#edge:{lo}|{hi}", BAD,
+                                f"edge `{uncond[0].id}` of the interval ({lo}, {hi}) is used regardless of the sign of the resolution: with a negative resolution on that axis the tile is placed one tile off", f.where(uncond[0])))
     if n_i < 2:
         out.append(Instance("R-SIGNROLE", f"{f.qual}#edges", UNDET, "expected two sign-dependent edge choices", f.where()))
 
